@@ -240,7 +240,12 @@ func (s *Store) validateAndRecoverODSQ4(
 	verifhook.Point("store.recover:removed")
 	err = file.CreateODSQ4(pathODS, pathQ4, roots, square)
 	if err != nil {
-		return fmt.Errorf("recreating ODSQ4 file: %w", err)
+		// ensure we don't have partial writes if any operation fails
+		removeErr := s.removeODSQ4(height, roots.Hash())
+		return errors.Join(
+			fmt.Errorf("recreating ODSQ4 file: %w", err),
+			removeErr,
+		)
 	}
 	return nil
 }
@@ -309,7 +314,12 @@ func (s *Store) validateAndRecoverODS(
 	verifhook.Point("store.recover:removed")
 	err = file.CreateODS(pathODS, roots, square)
 	if err != nil {
-		return fmt.Errorf("recreating ODS file: %w", err)
+		// ensure we don't have partial writes if any operation fails
+		removeErr := s.removeODS(height, roots.Hash())
+		return errors.Join(
+			fmt.Errorf("recreating ODS file: %w", err),
+			removeErr,
+		)
 	}
 	return nil
 }
